@@ -264,6 +264,18 @@ def run(ctx: Ctx):
                             isinstance(t, ast.Attribute) and t.attr == clock and A.dotted(t.value) == "self"
                             for t in A.store_targets(x)):
                         resets.append(fn_.qualname)
+        # only restarts that happen because something was received defeat the deadline; a restart
+        # at the moment the transport comes up (outgoing socket connected) is the start of the wait
+        if resets:
+            from ..effects import effects_of as _eo2
+            from ..lockset import call_sites as _cs
+            E2 = _eo2(model)
+            rd = pcx.methods.get("work_read_queue")
+            read_path = {id(h.node) for h in (E2.reachable_funcs([rd]) if rd is not None else [])}
+            if rd is not None:
+                read_path.add(id(rd.node))
+            resets = [q for q in resets if any(id(c.func.node) in read_path
+                                               for c in _cs(model, q.split(".")[-1]))]
         ctx.inst(cons + "#clock", sample={"elapsed": elapsed, "clock": clock, "restarted_by": resets})
         if clock is None or resets:
             ctx.fail(cons + "#clock", T.g.loc(n), f"the handshake time-out is measured with "
